@@ -56,7 +56,8 @@ type coinChainCfg struct {
 	Stakes   []string `json:"stakes"`  // stake of validator i (genesis validators: reached in the set-up block)
 	MaxVals  int      `json:"maxVals"` // staking MaxValidators
 	Coeff    string   `json:"coeff"`
-	Dist     string   `json:"dist"` // MaxSupply = genesis supply + dist
+	Dist     string   `json:"dist"`     // MaxSupply = genesis supply + dist
+	MaxDenom string   `json:"maxDenom"` // label MaxSupply is stored with (default: the native one)
 	Enabled  bool     `json:"enabled"`
 	Start    string   `json:"start"`    // genesis time, Unix ms
 	VotingMs string   `json:"votingMs"` // gov voting period
@@ -82,6 +83,9 @@ type coinChain struct {
 func coinChainDefaults(cfg *coinChainCfg, seed int64) {
 	if cfg.Seed == 0 {
 		cfg.Seed = seed
+	}
+	if cfg.MaxDenom == "" {
+		cfg.MaxDenom = coinDenom
 	}
 	if cfg.VotingMs == "" {
 		cfg.VotingMs = "20000"
@@ -162,7 +166,7 @@ func newCoinChain(cfg coinChainCfg) (c *coinChain, err error) {
 	// the cap, relative to the genesis supply (scenario set-up, like set_max of the EndBlocker scenarios)
 	ctx := n.Ctx()
 	supply := n.App.BankKeeper.GetSupply(ctx, coinDenom).Amount
-	n.App.CoinomicsKeeper.SetMaxSupply(ctx, sdk.Coin{Denom: coinDenom, Amount: supply.Add(coinInt(cfg.Dist))})
+	n.App.CoinomicsKeeper.SetMaxSupply(ctx, sdk.Coin{Denom: cfg.MaxDenom, Amount: supply.Add(coinInt(cfg.Dist))})
 	// keys of the validators that may be created later (not part of the genesis)
 	for i := cfg.Gen; i < cfg.Gen+cfg.Spare; i++ {
 		k := DetKey(cfg.Seed, fmt.Sprintf("val%d", i+1))
@@ -178,13 +182,14 @@ func (c *coinChain) project() M {
 	p := a.CoinomicsKeeper.GetParams(ctx)
 	feeAddr := authtypes.NewModuleAddress(authtypes.FeeCollectorName)
 	return M{
-		"enabled": p.EnableCoinomics,
-		"coeff":   p.RewardCoefficient.BigInt().String(),
-		"max":     bigStr(a.CoinomicsKeeper.GetMaxSupply(ctx).Amount),
-		"prevTs":  bigStr(a.CoinomicsKeeper.GetPrevBlockTS(ctx)),
-		"supply":  bigStr(a.BankKeeper.GetSupply(ctx, p.MintDenom).Amount),
-		"bonded":  bigStr(a.StakingKeeper.TotalBondedTokens(ctx)),
-		"fee":     bigStr(a.BankKeeper.GetBalance(ctx, feeAddr, p.MintDenom).Amount),
+		"enabled":  p.EnableCoinomics,
+		"coeff":    p.RewardCoefficient.BigInt().String(),
+		"max":      bigStr(a.CoinomicsKeeper.GetMaxSupply(ctx).Amount),
+		"maxDenom": a.CoinomicsKeeper.GetMaxSupply(ctx).Denom,
+		"prevTs":   bigStr(a.CoinomicsKeeper.GetPrevBlockTS(ctx)),
+		"supply":   bigStr(a.BankKeeper.GetSupply(ctx, p.MintDenom).Amount),
+		"bonded":   bigStr(a.StakingKeeper.TotalBondedTokens(ctx)),
+		"fee":      bigStr(a.BankKeeper.GetBalance(ctx, feeAddr, p.MintDenom).Amount),
 	}
 }
 
@@ -517,7 +522,8 @@ func coinRandomChainCfg(r *rand.Rand, seed int64) coinChainCfg {
 	} else {
 		cfg.SlashDs, cfg.SlashDt = "0", "0"
 	}
-	// the cap: far away, or a few blocks' worth of minting away
+	// the cap: far away, or a few blocks' worth of minting away; its label
+	cfg.MaxDenom = coinRandLabel(r)
 	cfg.Dist = coinFar
 	if r.Intn(4) == 0 {
 		sum := big.NewInt(0)
